@@ -17,6 +17,21 @@ fn graphs(rng: &mut Rng, tier: &str) -> Vec<(Mol, Vec<(usize, usize, f64)>)> {
     // toluene-like: benzene + methyl
     let extra = if tier == "thorough" { 30 } else { 6 };
     for _ in 0..extra { mols.push(random_mol(rng)); }
+    // bond tables that perception would never produce (it caps every atom at its tabulated maximal valence) but the bond-order
+    // interface accepts: four-coordinate boron, three-coordinate oxygen, bridging hydrogens, seven-coordinate iodine
+    let explicit: Vec<(&str, Vec<usize>, Vec<(usize, usize, f64)>)> = vec![
+        ("ammonia-borane", vec![5, 7, 1, 1, 1, 1, 1, 1], vec![(0, 1, 1.0), (0, 2, 1.0), (0, 3, 1.0), (0, 4, 1.0), (1, 5, 1.0), (1, 6, 1.0), (1, 7, 1.0)]),
+        ("tetrafluoroborate", vec![5, 9, 9, 9, 9], vec![(0, 1, 1.0), (0, 2, 1.0), (0, 3, 1.0), (0, 4, 1.0)]),
+        ("hydronium", vec![8, 1, 1, 1], vec![(0, 1, 1.0), (0, 2, 1.0), (0, 3, 1.0)]),
+        ("trimethyloxonium", vec![8, 6, 6, 6, 1, 1, 1, 1, 1, 1, 1, 1, 1], vec![(0, 1, 1.0), (0, 2, 1.0), (0, 3, 1.0), (1, 4, 1.0), (1, 5, 1.0), (1, 6, 1.0), (2, 7, 1.0), (2, 8, 1.0), (2, 9, 1.0), (3, 10, 1.0), (3, 11, 1.0), (3, 12, 1.0)]),
+        ("diborane", vec![5, 5, 1, 1, 1, 1, 1, 1], vec![(0, 2, 1.0), (0, 3, 1.0), (1, 4, 1.0), (1, 5, 1.0), (0, 6, 1.0), (1, 6, 1.0), (0, 7, 1.0), (1, 7, 1.0)]),
+        ("iodine-heptafluoride", vec![53, 9, 9, 9, 9, 9, 9, 9], vec![(0, 1, 1.0), (0, 2, 1.0), (0, 3, 1.0), (0, 4, 1.0), (0, 5, 1.0), (0, 6, 1.0), (0, 7, 1.0)]),
+        ("fluoronium-bridge", vec![9, 6, 6, 1, 1, 1, 1, 1, 1], vec![(0, 1, 1.0), (0, 2, 1.0), (1, 3, 1.0), (1, 4, 1.0), (1, 5, 1.0), (2, 6, 1.0), (2, 7, 1.0), (2, 8, 1.0)]),
+    ];
+    for (name, zs, bonds) in explicit {
+        let xs = (0..zs.len()).map(|i| [1.3 * i as f64, 0.0, 0.0]).collect();
+        v.push((Mol { name: name.into(), zs, xs }, bonds));
+    }
     for m in mols {
         if m.n() < 2 || m.n() > 36 { continue; }
         if let Some(mol) = catch(|| m.build()) {
